@@ -27,10 +27,13 @@ def gen(ctx):
         cases.append((cfg, content, exp, sec, msg))
     # End-of-RIB markers and near misses
     for fam in nlrienc.FAMS:
-        for variant in range(4):
-            cfg = {'four': True, 'ap': []}
+        for variant in range(6):
+            cfg = {'four': variant != 5, 'ap': []}
             content = {'wd': [], 'ann': [], 'attrs': [], 'reach': None, 'unreach': (fam, [])}
             exp = {'eor': '%d.%d' % nlrienc.AFISAFI[fam]}
+            if variant >= 4:
+                # the same marker with the extended-length form of the (3-octet) attribute value
+                content['unreach_ext'] = True
             if variant == 1:
                 content['ann'] = [nlrienc.gen_value('Ipv4Unicast', rng)]
                 content['attrs'] = [(0x40, 1, b'\x00', False), (0x40, 2, b'', False), (0x40, 3, b'\x0a\x00\x00\x01', False)]
